@@ -279,8 +279,8 @@ type GuardEval struct {
 	Roles func(obj types.Object, e ast.Expr) (string, bool) // role of a term
 	// Inline resolves a call of a same-package niladic function/method to its
 	// single returned expression (nil = cannot inline).
-	Inline func(fn *types.Func) ast.Expr
-	subst map[types.Object]ast.Expr // parameters of an inlined one-line function → argument expressions
+	Inline     func(fn *types.Func) ast.Expr
+	subst      map[types.Object]ast.Expr // parameters of an inlined one-line function → argument expressions
 	aliasDepth int
 }
 
@@ -580,9 +580,153 @@ func (g *GuardEval) eval(e ast.Expr, env map[string]int64, tc *termCollector) (i
 					return v, nil
 				}
 			}
+			// a boolean taken from a multi-result call of a same-package predicate helper
+			// (`err, exceeded := l.exceedsLimit(change)`): the condition under which the helper returns true there
+			if call, k := g.multiDef(info.Uses[id]); call != nil && g.aliasDepth < 3 {
+				if fn, ok := g.objOf(call).(*types.Func); ok && fn.Pkg() == g.Pkg.Types {
+					if cond := g.boolResultCond(fn, k); cond != nil {
+						sig, _ := fn.Type().(*types.Signature)
+						if sig != nil && sig.Params().Len() == len(call.Args) && !sig.Variadic() {
+							saved := g.subst
+							ns := map[types.Object]ast.Expr{}
+							for kk, vv := range saved {
+								ns[kk] = vv
+							}
+							for i := 0; i < sig.Params().Len(); i++ {
+								ns[sig.Params().At(i)] = call.Args[i]
+							}
+							g.subst = ns
+							g.aliasDepth++
+							v, err := g.eval(cond, env, tc)
+							g.aliasDepth--
+							g.subst = saved
+							if err == nil {
+								return v, nil
+							}
+						}
+					}
+				}
+			}
 		}
 	}
 	return 0, fmt.Errorf("guard term not recognised: %s", types.ExprString(e))
+}
+
+// multiDef: obj is a local defined once by `a, b := f(args)` (and never assigned again); the call and obj's position.
+func (g *GuardEval) multiDef(obj types.Object) (*ast.CallExpr, int) {
+	v, ok := obj.(*types.Var)
+	if !ok || v.IsField() || v.Pkg() == nil {
+		return nil, 0
+	}
+	var call *ast.CallExpr
+	idx, writes := 0, 0
+	for _, f := range g.Pkg.Syntax {
+		if f.Pos() > v.Pos() || v.Pos() > f.End() {
+			continue
+		}
+		ast.Inspect(f, func(n ast.Node) bool {
+			if s, ok := n.(*ast.AssignStmt); ok {
+				for k, lhs := range s.Lhs {
+					id, ok := lhs.(*ast.Ident)
+					if !ok {
+						continue
+					}
+					if g.Pkg.TypesInfo.Defs[id] == obj || g.Pkg.TypesInfo.Uses[id] == obj {
+						writes++
+						if g.Pkg.TypesInfo.Defs[id] == obj && len(s.Lhs) > 1 && len(s.Rhs) == 1 {
+							if c, ok := s.Rhs[0].(*ast.CallExpr); ok {
+								call, idx = c, k
+							}
+						}
+					}
+				}
+			}
+			return true
+		})
+	}
+	if writes != 1 {
+		return nil, 0
+	}
+	return call, idx
+}
+
+// boolResultCond: for a function whose body is a sequence of `if C { return …, <bool const>, … }` statements
+// followed by one `return …, <bool const>, …`, the condition (over the function's own parameters and receiver)
+// under which result k is true. nil when the body has another shape.
+func (g *GuardEval) boolResultCond(fn *types.Func, k int) ast.Expr {
+	for _, f := range g.Pkg.Syntax {
+		for _, d := range f.Decls {
+			fd, ok := d.(*ast.FuncDecl)
+			if !ok || g.Pkg.TypesInfo.Defs[fd.Name] != types.Object(fn) || fd.Body == nil {
+				continue
+			}
+			constAt := func(r *ast.ReturnStmt) (bool, bool) {
+				if k >= len(r.Results) {
+					return false, false
+				}
+				tv, ok := g.Pkg.TypesInfo.Types[r.Results[k]]
+				if !ok || tv.Value == nil || tv.Value.Kind() != constant.Bool {
+					return false, false
+				}
+				return constant.BoolVal(tv.Value), true
+			}
+			var result ast.Expr     // disjunction of the paths that return true
+			var notEarlier ast.Expr // conjunction of the negated earlier conditions
+			and := func(a, b ast.Expr) ast.Expr {
+				if a == nil {
+					return b
+				}
+				return &ast.BinaryExpr{X: &ast.ParenExpr{X: a}, Op: token.LAND, Y: &ast.ParenExpr{X: b}}
+			}
+			or := func(a, b ast.Expr) ast.Expr {
+				if a == nil {
+					return b
+				}
+				return &ast.BinaryExpr{X: &ast.ParenExpr{X: a}, Op: token.LOR, Y: &ast.ParenExpr{X: b}}
+			}
+			for i, st := range fd.Body.List {
+				switch x := st.(type) {
+				case *ast.IfStmt:
+					if x.Init != nil || x.Else != nil || len(x.Body.List) != 1 {
+						return nil
+					}
+					r, ok := x.Body.List[0].(*ast.ReturnStmt)
+					if !ok {
+						return nil
+					}
+					b, ok := constAt(r)
+					if !ok {
+						return nil
+					}
+					if b {
+						result = or(result, and(notEarlier, x.Cond))
+					}
+					notEarlier = and(notEarlier, &ast.UnaryExpr{Op: token.NOT, X: &ast.ParenExpr{X: x.Cond}})
+				case *ast.ReturnStmt:
+					if i != len(fd.Body.List)-1 {
+						return nil
+					}
+					b, ok := constAt(x)
+					if !ok {
+						return nil
+					}
+					if b {
+						if notEarlier == nil {
+							return x.Results[k]
+						}
+						result = or(result, notEarlier)
+					}
+					if result == nil {
+						return x.Results[k] // constant false
+					}
+					return result
+				default:
+					return nil
+				}
+			}
+		}
+	}
+	return nil
 }
 
 func isNilExpr(info *types.Info, e ast.Expr) bool {
